@@ -406,7 +406,9 @@ def check_pareto(ctx: Ctx) -> None:
     ctx.ob("4.6-quantifiers", con, ok, "a point is non-dominated iff every other point is worse in at least one objective: all over points of any over objectives (axis=1)", node=(helper or [f])[0])
     hname = helper[0].name if helper else "any_ax1_all"
     loops = [s for s in stmts_of(f) if isinstance(s, ast.For)]
-    ctx.need(len(loops) == 2, "compute_pareto_optimal_points: two loops expected")
+    if len(loops) != 2:
+        ctx.ob("4.6-filter", con, False, "the Pareto filter must first go through all the points (infeasible ones are marked non-optimal, feasible ones collected), then compare the feasible ones: the first pass was not found in that form", node=(loops or [f])[0], stmt="filter pass then dominance pass")
+        return
     filt, main = loops
     obj_var = None
     for s in ast.walk(main):
